@@ -108,7 +108,17 @@ def run(a, seed, t_start):
             continue
         # keep the obligations of this property: its own labelled clauses plus everything unlabelled (safety, frame,
         # preconditions of callees, invariants, exceptional behaviour) of a function the property depends on
-        obls = [o for o in r.obligations if _belongs(o.id, prop)]
+        obls = [o for o in r.obligations if _belongs(o.id, prop, P.get("also", {}).get(cname), cname in P.get("labelled_only", ()))]
+        # an obligation proved with earlier clauses as lemmas brings those lemmas with it (whatever their label)
+        allby = {o.id: o for o in r.obligations}
+        have = {o.id for o in obls}
+        work = list(obls)
+        while work:
+            for d in getattr(work.pop(), "depends", ()) or ():
+                if d in allby and d not in have:
+                    have.add(d)
+                    obls.append(allby[d])
+                    work.append(allby[d])
         # obligations listed as known findings are expected to fail: one short attempt, no escalation
         kn = [o for o in obls if _match_known(kf, cname, norm_id(o.id)) is not None]
         rest = [o for o in obls if _match_known(kf, cname, norm_id(o.id)) is None]
@@ -268,10 +278,18 @@ def run(a, seed, t_start):
     return 1 if n_viol else 0
 
 
-def _belongs(oid: str, prop: str) -> bool:
+def _belongs(oid: str, prop: str, also=None, labelled_only=False) -> bool:
+    """obligations of a target that count for `prop`: its own labelled clauses, clauses labelled for another property that
+    the registry lists explicitly for this one (`also`: regexes), and - unless the target is `labelled_only` (its safety /
+    frame obligations are then decided by the checks of the properties it primarily serves) - everything unlabelled.
+    Canaries (vacuity guards) always belong."""
     m = re.match(r"^(C\d\d)\.", oid)
     if m:
-        return m.group(1) == prop
+        if m.group(1) == prop:
+            return True
+        return any(re.match(rx, oid) for rx in (also or ()))
+    if labelled_only:
+        return "canary" in oid
     return True
 
 
